@@ -400,6 +400,15 @@ func (env *Env) elabCall(n ECall) (string, SType, error) {
 			return "", tBool, err
 		}
 		return fmt.Sprintf("(isalloc %s %s)", env.heap(heapAlloc), t), tBool, nil
+	case "allocated0": // allocated in the function's entry state (the term itself is evaluated in the current state)
+		t, st, err := env.elab(n.Args[0])
+		if err != nil {
+			return "", tBool, err
+		}
+		if w.stypeSort(st) == "Slice" {
+			t = "(s_arr " + t + ")"
+		}
+		return fmt.Sprintf("(isalloc %s %s)", e.heapAt(heapAlloc, 0), t), tBool, nil
 	case "fresh": // allocated now, not allocated in the old state
 		t, st, err := env.elab(n.Args[0])
 		if err != nil {
